@@ -9,6 +9,7 @@ fn main() {
     vh::common::install_panic_hook();
     vh::hook::install();
     vh::guard::install_handler();
+    vh::common::start_watchdog(600);
     match args[1].as_str() {
         "check" => {
             let prop = args[2].clone();
